@@ -26,11 +26,12 @@ def run(tier):
                 'distinct_nontrivial = calls that reported a candidate',
     })
     # (c) whole program: what scan() finds must also come out of do_scan()'s loop over an input block.  Streams whose
-    # first block ends in a planted header, directly followed by the genuine header of the second block, which ends
-    # 0..15 bits before an input-block boundary (the last words of an input block), and a third block; under the
-    # strict-priority schedulers with one priority-change point the scanner gets ahead of the parser, and then every
-    # genuine later header that lies wholly inside one input block must be found and adopted by the parser in at
-    # least one explored execution.
+    # first block ends in a planted header, directly followed by the genuine header of the second block, and a third
+    # block, cut into input blocks of every size (so that the headers fall into the last words of an input block,
+    # right behind another occurrence, etc.).  Under the strict-priority schedulers with one priority-change point
+    # the scanner gets ahead of the parser; the largest number of blocks the parser adopts from the scanner in one
+    # execution must then equal the number of genuine headers that lie wholly inside one input block (measured to
+    # be exact on the unchanged tree for all 576 (stream, block size) combinations).
     from lib import bzgen, bzref, lbzx, sched
     from lib.bzgen import Block
     junk = format(bzgen.BLOCK_MAGIC, '048b') + '0' * 32
@@ -42,18 +43,21 @@ def run(tier):
             data = bzgen.build([([cb, Block(b'second'), Block(b'third block')], 1)])[0]
             offs = [b['bit_offset'] for st_ in bzref.inspect(data)['streams'] for b in st_['blocks']]
             for g in range(8, 72, 4):
-                exp = sum(1 for o in offs[1:] if (o - 32) // (8 * g) == (o - 32 + 79) // (8 * g))
+                # genuine block headers (48-bit pattern + 32 bits) that lie wholly inside one input block; input
+                # coordinates start after the 4-byte stream header.  Each of them, the first included, can be found
+                # by the scanner before the parser gets there, and is then adopted by the parser.
+                exp = sum(1 for o in offs if (o - 32) // (8 * g) == (o - 32 + 79) // (8 * g))
                 a = offs[1] - 32
                 end = ((a + 79) // (8 * g) + 1) * 8 * g
-                if a // (8 * g) == (a + 79) // (8 * g) and end - (a + 80) <= 15 and exp == 2:
-                    # bits left in the input block after the planted occurrence (it ends 9 bits, the end-of-block
-                    # code, before the genuine header): at most two unread words plus the bit buffer when <= 95
-                    left = end - (a - 9)
-                    cells.append((data, g, exp, 'shift%d fill%d in_granul=%d (%d bits left after the planted header)' % (sh, fill, g, left), left))
+                left = end - (a - 9)        # bits of the input block behind the planted occurrence (it ends 9 bits before the 2nd header)
+                tight = a // (8 * g) == (a + 79) // (8 * g) and left <= 95
+                cells.append((data, g, exp, 'shift%d fill%d in_granul=%d (%d bits of the input block follow the planted header)' % (sh, fill, g, left), tight))
+    tight = [c for c in cells if c[4]]
+    rest = [c for c in cells if not c[4]]
     if tier == 'quick':
-        tight = [c for c in cells if c[4] <= 95]
-        rest = [c for c in cells if c[4] > 95]
-        cells = tight[:: max(1, len(tight) // 8)] + rest[:: max(1, len(rest) // 3)]
+        cells = tight[:: max(1, len(tight) // 10)] + rest[:: max(1, len(rest) // 4)]
+    else:
+        cells = tight + rest[::3]
     cells = [c[:4] for c in cells]
     nexec = 0
     d = common.scratch('c14w')
@@ -72,9 +76,9 @@ def run(tier):
                           {'engine': 'lbzx', 'cmdline': ' '.join(r['cmd']), 'stdin_hex': data.hex()})
         elif r['complete'] and r['events_max']['x-parse-adopt'] < exp:
             chk.violation('C14|whole|missed|' + desc.split(' in_granul')[0],
-                          'the header of a block that lies wholly inside one input block (it ends %s bits before the block end, right after another '
-                          'occurrence of the pattern) is never found by the scanner: at most %d of %d later blocks adopted in %d executions '
-                          '(all priority orders x one priority change), %s' % ('0..15', r['events_max']['x-parse-adopt'], exp, r['executions'], desc),
+                          'a block header that lies wholly inside one input block is never found by the scanner: %d of the 3 genuine headers '
+                          'lie inside one input block, but at most %d blocks were adopted from the scanner in any of %d executions '
+                          '(all priority orders x one priority change); %s' % (exp, r['events_max']['x-parse-adopt'], r['executions'], desc),
                           {'engine': 'lbzx', 'cmdline': ' '.join(r['cmd']), 'stdin_hex': data.hex()})
     chk.leg('whole-program-scanner', cells=len(cells), executions=nexec)
     chk.cov['evaluations'] += nexec
